@@ -10,7 +10,8 @@ PROP = dict(
           "FinalExponentiation, the split product, the product of singles and the three fixed-Q entry points, so by the "
           "DESIGN rule (k>=2, or an infinity pair, or a constructed-zero sum, or a fixed-Q variant) every case is non-trivial; "
           "distinct = distinct (curve, a, b, partition) hashes; the size/empty sweep is exhaustive over len(P),len(Q) in 0..4 "
-          "x 3 contents x 6 entry points"),
+          "x 3 contents x 6 entry points, plus mismatches at 64/65, 128/129; the many-pairs job runs every entry point once per "
+          "size k in {63,64,65,66,127,128,129,200} and curve (x8 in thorough)"),
     assumptions=[
         "reference = harness/internal/ref tower (schoolbook F_p^k arithmetic, ref.Exp) and affine curve model; no gnark-crypto code",
         "the points [a]G1,[b]G2 are computed by the reference (ref.Curve.Mul/Add/Neg on the validated generators) and loaded "
@@ -21,6 +22,9 @@ PROP = dict(
         "one PrecomputeLines result is re-used across MillerLoopFixedQ, PairFixedQ, PairingCheckFixedQ and a second P vector, and must "
         "stay unchanged (F25: before the repair in fixes/F25-fixedq-lines-inplace.patch the entry points scaled the caller's lines in "
         "place; regression test TestC05_RegressFixedQLinesReuse)",
+        "inputs are read-only: the point slices, the precomputed lines and the Miller-loop outputs handed to FinalExponentiation "
+        "(single and variadic form) are compared with copies after every call, and the outputs are finished a second time",
+        "many pairs (k up to 200): scalars from a small set of reference multiples plus one solved G1 multiple; value still exact",
         "empty input (0 pairs): undocumented; only 'no panic, and error or the empty product' is asserted",
         "product of singles is multiplied by the reference GT field, not by the library's Mul (C06)",
         "the absolute value of the pairing is anchored through FinalExponentiation(z) = z^d, d = s(p^k-1)/r with the cofactor s and seed "
@@ -29,7 +33,10 @@ PROP = dict(
     mandatory_all=["k=1", "k=2", "k>=3", "infG1@first", "infG1@middle", "infG1@last", "infG2@first", "infG2@middle",
                    "infG2@last", "sum:zero_constructed", "sum:zero_with_finite_pairs", "sum:nonzero", "sum:off_by_one",
                    "variant:fixedQ", "variant:fixedQ_lines_reused_other_P", "size:mismatch", "generator:order_r", "fe:uniform_field_element",
-                   "regress:F25_lines_reuse"],
+                   "regress:F25_lines_reuse", "k>=65", "k>=129", "inf_at>=64", "inf_at>=64:G1", "inf_at>=64:G2",
+                   "many:inf_last:G1", "many:inf_last:G2", "many:several_infinity_pairs",
+                   "many:sum_zero", "many:sum_nonzero", "variant:fixedQ_many_pairs", "variant:MillerLoopDirect_many_pairs",
+                   "variant:FinalExp_outputs_reused", "size:mismatch_large"],
     jobs=[
         # 150 cases per core curve (quick), 3000 per curve (thorough); bls24 reference exponentiations cost ~0.6 s each
         dict(name="pair", pkg="c05", run="^TestC05_Pairing$", shards=CORE, checks=(50, 750), seeds=(3, 4), weight=3,
@@ -42,6 +49,9 @@ PROP = dict(
              checks=(3, 20), weight=2, timeout=(900, 5400)),
         dict(name="finalexp24", pkg="c05", run="^TestC05_FinalExp$", shards=[c for c in PAIRING if c.startswith("bls24")],
              checks=(1, 6), weight=4, timeout=(900, 5400)),
+        # many pairs: every entry point on k in {63,64,65,66,127,128,129,200} pairs with infinities around the word boundaries;
+        # one rapid.Check per size (so every size is reached in every run), checks = cases per size and curve; 3-14 s per curve
+        dict(name="many", pkg="c05", run="^TestC05_ManyPairs$", shards=PAIRING, checks=(1, 8), weight=2, timeout=(900, 5400)),
         dict(name="sizes", pkg="c05", run="^TestC05_Sizes$", rapid=False),
         dict(name="generator", pkg="c05", run="^TestC05_Generator$", rapid=False),
         dict(name="regress", pkg="c05", run="^TestC05_Regress", rapid=False),
@@ -51,7 +61,8 @@ PROP = dict(
 PROP.update(
     technique=("property-based testing (rapid) with exact metamorphic oracles evaluated in an independent reference tower: "
                "accept-iff-sum-vanishes, value = e(G1,G2)^(sum a_i b_i), byte-equality of all computation variants"),
-    level_text=("Generated-input search over the number of pairs (1..6, covering the k=1 / k=2 / k>=3 code paths), scalar vectors "
+    level_text=("Generated-input search over the number of pairs (1..6, covering the k=1 / k=2 / k>=3 code paths, and 63..200 around "
+                "the machine-word boundaries with infinities at index >= 64 / >= 128 on either side), scalar vectors "
                 "with infinity at every position on either side, sums constructed to vanish (solved, cancelling couples/triples) or to "
                 "miss by one / by a small multiple, on all 7 pairing curves. Each case is decided exactly: the library value must equal "
                 "the reference power of the generator pairing, and every computation variant must serialise to the same bytes. "
